@@ -216,6 +216,26 @@ def check_mtl(case, ctx):
     _pregrads(b, case, dtype)
     _pregrads(twin, case, dtype)
     all1 = b.shared + b.pool
+    # default discovery must not depend on what was discovered on the SAME retained graph before, with other arguments: in half of
+    # the cases a backward(losses) with default inputs (no feature excluded) comes first; in the other half it comes after
+    from torchjd import backward
+    all2 = twin.shared + twin.pool
+    rg_idx = [k for k, x in enumerate(probe.shared + probe.pool) if x.requires_grad]
+    reach_rg = P.reachable(probe.losses, [(probe.shared + probe.pool)[k] for k in rg_idx]) if rg_idx else []
+    reach_idx = [k for k, r in zip(rg_idx, reach_rg) if r]
+    bw_first = bool(case.get("pseed", 0) & 1)
+
+    def mixed_backward():
+        backward(b.losses, aggs.make(case["agg"], dtype), retain_graph=True)
+        backward(twin.losses, aggs.make(case["agg"], dtype), inputs=[all2[k] for k in reach_idx], retain_graph=True)
+        ctx.count("w_backward_and_mtl_backward_defaults_on_one_graph")
+
+    if bw_first:
+        try:
+            mixed_backward()
+        except Exception as e:
+            ctx.violation("defaulted_backward_raised", {**case, "program": C02._slim({"program": desc})["program"]}, {"error": repr(e)[:300], "order": "backward first"})
+            return
     before = aj.snap(all1)
     kwargs = {}
     if not use_default_shared:
@@ -249,8 +269,16 @@ def check_mtl(case, ctx):
                          shared_params=[C02.leaf_of(twin, r) for r in dshared], tasks_params=[[C02.leaf_of(twin, r) for r in refs] for refs in dtasks])
             v = compare_all(all1, twin.shared + twin.pool, TOL[dname], ctx, f"mtl_{dname}")
             if v:
-                vio = (v[0], {**v[1], **detail_common})
+                vio = (v[0], {**v[1], **detail_common, "backward_with_defaults_came_first": bw_first})
             ctx.count("mtl_default_vs_explicit")
+            if vio is None and not bw_first:
+                try:
+                    mixed_backward()
+                    v = compare_all(all1, twin.shared + twin.pool, TOL[dname], ctx, f"mtl_then_backward_{dname}")
+                    if v:
+                        vio = ("backward_defaults_after_mtl_backward:" + v[0], {**v[1], **detail_common})
+                except Exception as e:
+                    vio = ("defaulted_backward_raised", {**detail_common, "error": repr(e)[:300], "order": "after mtl_backward"})
     if vio:
         ctx.violation(vio[0], slim, vio[1])
     allrg = len(srg) + sum(1 for l in desc["pool"] if l["rg"])
